@@ -398,6 +398,119 @@ func TestVerifC05Native(t *testing.T) {
 		_ = i
 	}
 
+	// ---- results are independent values: defaults are not shared between results, struct types or calls
+	type defA struct {
+		M []string `json:"m,default=[GET,POST,HEAD]" key:"m,default=[GET,POST,HEAD]"`
+	}
+	type defB struct {
+		X []string `json:"x,default=[GET,POST,HEAD]" key:"x,default=[GET,POST,HEAD]"`
+		N int      `json:"n,optional" key:"n,optional"`
+	}
+	type defC struct {
+		I []int     `json:"i,default=[3,1,2]" key:"i,default=[3,1,2]"`
+		F []float64 `json:"f,default=[0.5,1.5]" key:"f,default=[0.5,1.5]"`
+		S []string  `json:"s,default=[3,1,2]" key:"s,default=[3,1,2]"` // same default text as I, other element type
+	}
+	type defT struct {
+		T []string `json:"t,default=[a,b,c]" key:"t,default=[a,b,c]"`
+	}
+	type defD struct {
+		Items []defT          `json:"items" key:"items"`
+		By    map[string]defT `json:"by" key:"by"`
+		In    defT            `json:"in" key:"in"`
+		P     *defT           `json:"p" key:"p"`
+	}
+	wantM := []string{"GET", "POST", "HEAD"}
+	spoil := func(sl []string) {
+		if len(sl) > 1 {
+			sl[0], sl[len(sl)-1] = "spoiled", sl[0]
+			_ = append(sl[:1], "appended")
+		}
+	}
+	for _, epn := range c05nEPOrder {
+		epn := epn
+		ep := eps[epn]
+		var msg string
+		add("shared-default", "[]string default across results, calls and struct types via "+epn, "ok", func() error {
+			msg = ""
+			var a1, a2, a3 defA
+			var b1 defB
+			if err := ep(`{}`, &a1); err != nil {
+				return err
+			}
+			if err := ep(`{}`, &a2); err != nil {
+				return err
+			}
+			if !reflect.DeepEqual(a1.M, wantM) || !reflect.DeepEqual(a2.M, wantM) {
+				msg = fmt.Sprintf("first use: %v %v", a1.M, a2.M)
+				return nil
+			}
+			spoil(a1.M)
+			if !reflect.DeepEqual(a2.M, wantM) {
+				msg = fmt.Sprintf("modifying one result changed another result: %v", a2.M)
+				return nil
+			}
+			if err := ep(`{}`, &a3); err != nil {
+				return err
+			}
+			if err := ep(`{"n":1}`, &b1); err != nil {
+				return err
+			}
+			if !reflect.DeepEqual(a3.M, wantM) || !reflect.DeepEqual(b1.X, wantM) {
+				msg = fmt.Sprintf("after a result was modified in place by its owner, the default is %v (same type) / %v (another struct type with the same default text), declared %v", a3.M, b1.X, wantM)
+			}
+			return nil
+		}, func() string { return msg })
+		add("shared-default", "numeric / mixed-type defaults with one default text via "+epn, "ok", func() error {
+			msg = ""
+			var c1, c2 defC
+			if err := ep(`{}`, &c1); err != nil {
+				return err
+			}
+			c1.I[0], c1.F[0], c1.S[0] = -9, -9, "spoiled"
+			if err := ep(`{}`, &c2); err != nil {
+				return err
+			}
+			if !reflect.DeepEqual(c2, defC{[]int{3, 1, 2}, []float64{0.5, 1.5}, []string{"3", "1", "2"}}) {
+				msg = fmt.Sprintf("second use: %+v", c2)
+			}
+			return nil
+		}, func() string { return msg })
+		add("shared-default", "defaulted slices inside slice elements, map values, nested and pointed-to structs via "+epn, "ok", func() error {
+			msg = ""
+			doc := `{"items":[{},{},{"t":["x","y"]}],"by":{"a":{},"b":{}},"in":{},"p":{}}`
+			var d1, d2 defD
+			if err := ep(doc, &d1); err != nil {
+				return err
+			}
+			want := []string{"a", "b", "c"}
+			spoil(d1.Items[0].T)
+			for name, got := range map[string][]string{"items[1].t": d1.Items[1].T, "by[a].t": d1.By["a"].T, "by[b].t": d1.By["b"].T, "in.t": d1.In.T, "p.t": d1.P.T} {
+				if !reflect.DeepEqual(got, want) {
+					msg = fmt.Sprintf("modifying items[0].t changed %s of the same result: %v", name, got)
+					return nil
+				}
+			}
+			spoil(d1.By["a"].T)
+			spoil(d1.In.T)
+			spoil(d1.P.T)
+			spoil(d1.Items[2].T)
+			if err := ep(doc, &d2); err != nil {
+				return err
+			}
+			for name, got := range map[string][]string{"items[0].t": d2.Items[0].T, "items[1].t": d2.Items[1].T, "by[a].t": d2.By["a"].T, "by[b].t": d2.By["b"].T, "in.t": d2.In.T, "p.t": d2.P.T} {
+				if !reflect.DeepEqual(got, want) {
+					msg = fmt.Sprintf("second use: %s = %v, declared default %v", name, got, want)
+					return nil
+				}
+			}
+			if !reflect.DeepEqual(d2.Items[2].T, []string{"x", "y"}) {
+				msg = fmt.Sprintf("second use: items[2].t = %v, document says [x y]", d2.Items[2].T)
+			}
+			return nil
+		}, func() string { return msg })
+	}
+
 	// ---- optional embedded struct given partially
 	type embIn struct {
 		A int `json:"a"`
